@@ -441,6 +441,11 @@ impl Engine for BytesEngine {
                     l.push(format!("by.hash {b} 0"));
                     l.push(format!("by.drop {b} 0"));
                 } } }
+                // iterators whose exact-looking size hint is wrong (adapters that filter / expand but forward the inner hint)
+                for &n in &[0usize, 1, 9, 33, 200] { for d in [-3i64, -1, 1, 3] {
+                    let src: Vec<u8> = (0..n).map(|i| (i * 5 + 2) as u8).collect();
+                    l.push(format!("by.iterlie {} {d}", if src.is_empty() { "-".to_string() } else { hex(&src) }));
+                } }
                 l.push("by.live".into());
             }
             1 => {
@@ -543,7 +548,7 @@ impl Engine for BytesEngine {
             let w: Vec<&str> = line.split_whitespace().collect();
             if w.is_empty() { continue; }
             // hand-written / shrunk lines may be malformed: the byte-string arguments must be hex
-            let hex_args: &[usize] = match w[0] { "by.new" => &[4], "by.stress" => &[3], "by.str" | "by.debytes" => &[2], "by.scmp" => &[1, 2], _ => &[] };
+            let hex_args: &[usize] = match w[0] { "by.iterlie" if w.get(1) != Some(&"-") => &[1], "by.new" => &[4], "by.stress" => &[3], "by.str" | "by.debytes" => &[2], "by.scmp" => &[1, 2], _ => &[] };
             if hex_args.iter().any(|&i| w.get(i).map(|a| !is_hex(a)).unwrap_or(false)) { rec.op(line.clone(), "bad-op"); rec.stat("op/malformed"); continue; }
             match (w[0], w.len()) {
                 ("by.new", 5) => {
@@ -572,6 +577,22 @@ impl Engine for BytesEngine {
                         workers.on(0, move || drop(old));
                     }
                     rec.nontrivial = true;
+                }
+                ("by.iterlie", 3) => {
+                    // `collect::<SharedBytes>()` from an iterator that lies about its length, against `Vec`'s collect on the same iterator
+                    let src = if w[1] == "-" { vec![] } else { unhex(w[1]) };
+                    let d: i64 = w[2].parse().unwrap_or(0);
+                    struct Lie<I> { it: I, hint: usize }
+                    impl<I: Iterator<Item = u8>> Iterator for Lie<I> { type Item = u8; fn next(&mut self) -> Option<u8> { self.it.next() } fn size_hint(&self) -> (usize, Option<usize>) { (self.hint, Some(self.hint)) } }
+                    let hint = (src.len() as i64 + d).max(0) as usize;
+                    let via_vec: Vec<u8> = Lie { it: src.clone().into_iter(), hint }.collect();
+                    let sb: SharedBytes = workers.on(0, { let src = src.clone(); move || Lie { it: src.into_iter(), hint }.collect::<SharedBytes>() });
+                    let same = sb.len() == src.len() && &*sb == &src[..] && via_vec == src;
+                    rec.nontrivial = true;
+                    rec.stat(format!("iterlie/{}", if d < 0 { "hint-too-small" } else { "hint-too-large" }));
+                    if !same { rec.oracle_fail(format!("content-differs collect::<SharedBytes>() from an iterator of {} bytes whose size_hint says exactly {hint}: got {} bytes{}", src.len(), sb.len(), if sb.len() == src.len() { " with different content" } else { "" })); }
+                    workers.on(0, move || drop(sb));
+                    rec.op(format!("by.iterlie {} {d}", src.len()), if same { "same" } else { "differs" });
                 }
                 ("by.clone", 4) | ("by.deref", 4) | ("by.move", 4) => {
                     let (Some(h), Some(t)) = (num(w[2]), num(w[3])) else { rec.op(line.clone(), "bad-op"); continue };
